@@ -73,7 +73,10 @@ CLAIMS["C13"] = dict(
         "accepted grammars x inputs (also a second generation from the same grammar object) in a sandboxed child process; "
         "one known finding (token names without a runtime primitive).",
    design="6/C13", technique="Coq proofs (up-front check parametric in extracted tables; reference resolution of the IR interpreter; every module the generator model emits resolves its references, by an invariant over the call maker and its work list) + instance lemmas + correspondence on planted defects + execution of accepted grammars",
-   note="NameError from an ACTION (an unbound name in user code) is outside the theorem; it depends on the action text.")
+   note="End to end since fix 62f3f48: C13_accepted_grammars_resolve -- a grammar the up-front check accepts (with the real generator's "
+        "token set, all of whose kinds the call maker knows: instance lemma per run) yields a module whose runs never end in "
+        "AttributeError (RuleCheckProofs + GenRefs + ExecRefs glued in Proofs/GenAccepted.v). NameError from an ACTION (an unbound "
+        "name in user code) is outside the theorem; it depends on the action text.")
 CLAIMS["C03"] = dict(
    text="Coq theorems (Props/C03.v), for every monotone method table, every grammar and every rule order: the rule flags "
         "computed by the model of compute_nullables (depth-first passes with a visited set, repeated until stable; "
@@ -240,10 +243,14 @@ CLAIMS["C01"] = dict(
         "and runtime models are tied to the code by K-gen (text equality) and K-run (trace equality). Explored: hand-written "
         "shapes (actions in groups, outer actions, && on names, cuts with actions, look-alike groups) and random well-formed "
         "grammars x all token sequences up to length 3-4.",
-   design="6/C01", technique="Coq reference semantics (determinism and evaluator soundness proved) + per-case evaluation of the reference inside Coq against the implementation + K-gen/K-run",
-   note="Partial: the universal theorem run(gen g) = peg g (soundness/completeness through cache and helper rules) is not "
-        "proved; for the explored cases the equality is machine-checked case by case. Known finding: lookahead over a "
-        "forced item consumes.")
+   design="6/C01", technique="Coq reference semantics (determinism, evaluator soundness) + compilation-correctness theorem for the flat IR fragment + per-case evaluation of the reference inside Coq against the implementation + K-gen/K-run",
+   note="A first compilation-correctness THEOREM (C01_interpreter_implements_the_reference_semantics_on_flat_modules, "
+        "Proofs/FlatSem.v): for every IR module whose alternatives are sequences of calls of rule methods, token primitives and "
+        "expect() under at most one wrapper (optional, lookahead, forced, cut) with the default action -- read back as a grammar -- "
+        "whenever the interpreter (cache off, quiet) returns, the reference semantics derives exactly that value and end position, "
+        "or failure; all token lists, states and fuel. Partial: for ALL grammars run(gen g) = peg g is not proved (loops, gathers, "
+        "explicit actions, left recursion, and the link from the module read back to the source grammar are missing); for the "
+        "explored cases the equality is machine-checked case by case. Known finding: lookahead over a forced item consumes.")
 CLAIMS["C19"] = dict(
    text="Coq theorems (Props/C19.v), both halves. Empty marker: for every grammar, token list, position and action "
         "interpretation, an item (rule) that the reference PEG semantics matches WITHOUT consuming is nullable under every "
